@@ -2,9 +2,9 @@ import RedisGoModel.Driver.Util
 import RedisGoModel.Resp.Chunked
 /-! parser engine: `P <stream> <chunk-mode> <events>`; the verdict is the whole-stream model `parseLoop`.  Chunk independence is
     a theorem about the chunked reader of `Resp/Chunked.lean` (`C02.fragmentation_independent`: `runChunks chunks = parseLoop St.init
-    chunks.flatten` for every list of chunks); the engine also RUNS that reader (`feed` per chunk, `finish`) on a chunking of each
-    stream — whole for mode 0, byte by byte for mode 1 (the harness's boundaries), pseudo-random sizes seeded by the mode otherwise
-    (not Go's PRNG: by the theorem the boundaries cannot matter) — and refuses the line if the compiled reader disagrees. -/
+    chunks.flatten` for every list of chunks); the engine also RUNS that reader (`feed` per chunk, `finish`) on the very chunk
+    boundaries the harness's reader handed to `bufio` (field `k=<sizes>`, run-length encoded; lines without it — old corpus — are
+    cut whole / byte by byte / pseudo-randomly by mode) and refuses the line if the compiled reader disagrees. -/
 namespace Driver
 open Resp
 
@@ -49,16 +49,35 @@ def chunksFor (mode : String) (s : Bytes) : List Bytes :=
   else if mode == "1" && s.length ≤ 1200 then s.map fun b => [b]
   else cutLoop s.length (mode.toNat?.getD 7) s
 
+/-- `k=3,1x40,7` -> [3, 1 (40 times), 7] -/
+def parseSizes (k : String) : List Nat :=
+  (((k.drop 2).toString.splitOn ",").map fun it =>
+    match it.splitOn "x" with
+    | [a, n] => List.replicate (n.toNat?.getD 0) (a.toNat?.getD 0)
+    | [a] => [a.toNat?.getD 0]
+    | _ => []).flatten
+
+/-- cut `s` at the given sizes (zero sizes skipped); whatever is left over is one last chunk -/
+def cutBy : List Nat → Bytes → List Bytes
+| [], s => if s.isEmpty then [] else [s]
+| k :: ks, s => if k == 0 then cutBy ks s else if s.isEmpty then [] else s.take k :: cutBy ks (s.drop k)
+
+def parserVerdict (s : Bytes) (chunks : List Bytes) (obs : String) : Except String Bool :=
+  let evs := parseLoop St.init s
+  let e := ",".intercalate (evs.map renderEvent)
+  let e2 := ",".intercalate ((runChunks chunks).map renderEvent)
+  if e2 != e then .error s!"MODEL: chunked reader disagrees with the whole-stream parser (contradicts C02.fragmentation_independent): chunked={e2} whole={e}"
+  else if e == obs then .ok (hasArrayCmd evs) else .error s!"expected={e} got={obs}"
+
 def parserLine (fs : List String) : Option (Except String Bool) :=
   match fs with
+  | ["P", s, _mode, ks, obs] =>
+    match unhex s with
+    | some s => some (if ks.startsWith "k=" then parserVerdict s (cutBy (parseSizes ks) s) obs else .error "bad chunk field")
+    | none => some (.error "bad-hex")
   | ["P", s, mode, obs] =>
     match unhex s with
-    | some s =>
-      let evs := parseLoop St.init s
-      let e := ",".intercalate (evs.map renderEvent)
-      let e2 := ",".intercalate ((runChunks (chunksFor mode s)).map renderEvent)
-      some (if e2 != e then .error s!"MODEL: chunked reader disagrees with the whole-stream parser (contradicts C02.fragmentation_independent): chunked={e2} whole={e}"
-            else if e == obs then .ok (hasArrayCmd evs) else .error s!"expected={e} got={obs}")
+    | some s => some (parserVerdict s (chunksFor mode s) obs)
     | none => some (.error "bad-hex")
   | _ => none
 
